@@ -189,13 +189,14 @@ def main(tier: str) -> int:
     tuples = [()] + [t for n in (1, 2, 3) for t in itertools.product(range(1, 5 if tier == "thorough" else 4), repeat=n)]
     for hl in tuples:
         for off in (True, False):
-            for cls, nout, oact in ((MLPEARegressor, 1, 4), (MLPEAClassifier, 3, 5)):
+            # the output activation follows the KIND of estimator, whatever the number of outputs (1 class, several targets)
+            for cls, nout, oact in ((MLPEARegressor, 1, 4), (MLPEAClassifier, 3, 5)) + (((MLPEAClassifier, 1, 5), (MLPEARegressor, 2, 4), (MLPEAClassifier, 2, 5)) if len(hl) <= 1 else ()):
                 est = cls(n_iter=2, pop_size=4, hidden_layers=hl, offset=off, activation="tanh")
                 nin = 3 + (1 if off else 0)
                 net = est._defitne_net(nin, nout)
                 d = {"estimator": cls.__name__, "hidden_layers": list(hl), "offset": off, "n_inputs": nin, "n_outputs": nout}
                 chk.count("mlp_builder")
-                chk.case(("mlp", cls.__name__, hl, off))
+                chk.case(("mlp", cls.__name__, hl, off, nout))
                 # S4: the layered architecture as an edge SET
                 conns = {(int(a), int(b)) for a, b in net._connects}
                 layers = [list(range(nin))]
